@@ -1324,6 +1324,94 @@ def _sorted_forward(spans):
     return all(not s[2] for s in real) and all(real[i][1] <= real[i + 1][0] for i in range(len(real) - 1))
 
 
+FEAT_COMP = str.maketrans("ACGT-", "TGCA-")
+
+
+def _check_make_feature_case(out, par, spans, strand, a, b):
+    import cogent3
+
+    spans = [tuple(x) for x in spans]
+    k = len(spans)
+    fs, fe = spans[0][0], spans[-1][1]
+    out["evaluations"] += 1
+    inp = dict(parent=par, spans=spans, strand=strand, view=[a, b])
+    try:
+        seq = cogent3.make_seq(par, name="s", moltype="dna")
+        seq.add_feature(biotype="gene", name="g", spans=list(spans), strand=strand)
+        sub = seq[a:b]
+        rsub = sub.rc()
+        fw = list(sub.get_features(biotype="gene", allow_partial=True))
+        rv = list(rsub.get_features(biotype="gene", allow_partial=True))
+    except CATCH as e:
+        add_failure(out, "spec", "get_features(allow_partial=True) raised on a sliced / rc'd sequence", inp, "features",
+                    type(e).__name__, sig="make_feature:raise:" + type(e).__name__)
+        return
+    if len(fw) != len(rv):
+        add_failure(out, "spec", "forward and rc'd view report a different number of features", inp, len(fw), len(rv),
+                    sig="make_feature:count")
+        return
+    if not fw:
+        bump(out, "make_feature", "not-overlapping")
+        return
+    g1 = str(sub.gapped_by_map(fw[0].map))
+    g2 = str(rsub.gapped_by_map(rv[0].map))
+    pre = max(0, a - fs)
+    post = max(0, fe - b)
+    cls = "two-sided" if pre and post else "left" if pre else "right" if post else "inside"
+    cls += ":equal" if pre == post else ":unequal"
+    # mirror image: what the rc'd view shows through its map is the reverse complement of the forward rendering
+    want2 = g1[::-1].translate(FEAT_COMP)
+    if g2 != want2:
+        add_failure(out, "spec", "feature map on the rc'd view is not the reversed map of the forward view "
+                    "(rendering through it is not the reverse complement)", inp, want2, g2,
+                    sig=f"make_feature:reversed:{cls}:{'multi' if k > 1 else 'single'}-span")
+        return
+    # mirrored coordinates too
+    c1 = [(int(x), int(y)) for x, y in fw[0].map.get_coordinates()]
+    c2 = [(int(x), int(y)) for x, y in rv[0].map.get_coordinates()]
+    L = b - a
+    if sorted(c2) != sorted((L - y, L - x) for x, y in c1):
+        add_failure(out, "spec", "coordinates of the feature on the rc'd view are not the mirrored coordinates", inp,
+                    sorted((L - y, L - x) for x, y in c1), sorted(c2), sig=f"make_feature:reversed-coords:{cls}")
+        return
+    # absolute rendering for a feature overhanging on at most one side (single span): lost columns + visible part
+    if k == 1 and not (pre and post):
+        want1 = "-" * pre + par[max(fs, a) : min(fe, b)] + "-" * post
+        if g1 != want1:
+            add_failure(out, "spec", "rendering the view through the feature map is not the feature's gapped string",
+                        inp, want1, g1, sig=f"make_feature:forward:{cls}")
+            return
+    bump(out, "make_feature", cls)
+    out["nontrivial"].add(("make_feature", par, str(spans), a, b))
+
+
+def _spec_make_feature(out, rng, count):
+    """feature maps as the real `Sequence.make_feature` builds them on sliced and reverse-complemented annotated
+    sequences (lost spans for the parts of the feature outside the view, unequal at the two ends): rendering the view
+    through the map is the feature's gapped string, and the map on the rc'd view is the mirror image of the map on the
+    forward view ("reversal gives the map of the correspondingly transformed string")"""
+    import cogent3
+
+    letters = "ACGT"
+    for it in range(count):
+        n = rng.randint(6, 24)
+        par = "".join(rng.choice(letters) for _ in range(n))
+        k = rng.choice([1, 1, 1, 2, 3])
+        cuts = sorted(rng.sample(range(0, n + 1), 2 * k))
+        spans = [(cuts[2 * i], cuts[2 * i + 1]) for i in range(k)]
+        strand = rng.choice(["+", "-"])
+        fs, fe = spans[0][0], spans[-1][1]
+        # views whose ends fall inside / outside the feature so that the overhang differs on the two sides
+        views = set()
+        for _ in range(6):
+            a = rng.choice([0, max(fs - 1, 0), fs, min(fs + 1, n - 1), min(fs + 2, n - 1), rng.randint(0, n - 1)])
+            b = rng.choice([n, min(fe + 1, n), fe, max(fe - 1, 1), max(fe - 3, 1), rng.randint(1, n)])
+            if a < b:
+                views.add((a, b))
+        for a, b in sorted(views):
+            _check_make_feature_case(out, par, spans, strand, a, b)
+
+
 def _regression_corpus(out):
     """witnesses of repaired defects (status "fixed" in known_findings.d/C08.json) are replayed first on every run;
     a failure is an ordinary spec failure (fixed entries are never matched as known)"""
@@ -1445,6 +1533,7 @@ def spec_check(ctx, budget):
                 _result_ok(out, lambda: keep[s].joined_segments(cs), "".join(s[a:b] for a, b in cs),
                            "joined_segments is not the map of the joined slices", "joined_segments", dict(s=s, coords=cs))
     _spec_fmap(out, rng, 1500 * budget)
+    _spec_make_feature(out, rng, 60 * budget)
     return out
 
 
@@ -1482,6 +1571,13 @@ def _count_runs(s):
 
 
 def _replay_into(out, inp):
+    if "parent" in inp and "view" in inp:
+        _check_make_feature_case(out, inp["parent"], inp["spans"], inp["strand"], inp["view"][0], inp["view"][1])
+        return
+    _replay_into_maps(out, inp)
+
+
+def _replay_into_maps(out, inp):
     """re-run every clause about one recorded input on the real code, collecting failures in out"""
     import cogent3
 
